@@ -16,6 +16,7 @@ import z3
 
 from fsic.core.models import BaseModel
 from fsic.exceptions import NonConvergenceError, SolutionError
+from pyvc import roles as R
 from pyvc import values as V
 from pyvc.contracts import Call, FunctionContract, LoopSpec, Outcome
 from pyvc.ctx import OutOfSubset
@@ -91,7 +92,7 @@ class SolveTContract(FunctionContract):
         e['inputs'] = {'lags': env.lags, 'leads': env.leads, 'n': n, 'nc': nc, 't': t, 'min_iter': min_iter, 'max_iter': max_iter, 'offset': offset, 'errors': errors,
                        'failures': failures, 'catch_first_error': cfe, 'tol': tol}
         self._install_calls(interp, e)
-        self.loops = {0: self._offset_loop(e), 1: self._main_loop(e)}
+        self.loops = {R.for_without_call('_evaluate'): self._offset_loop(e), R.body_calls('_evaluate'): self._main_loop(e)}
         interp.registry.set_loops(self.qualname, self.loops)
         kwargs = dict(min_iter=SInt(min_iter), max_iter=SInt(max_iter), tol=SFloat(tol), offset=SInt(offset),
                       failures=SStr(failures), errors=SStr(errors), catch_first_error=SBool(cfe))
@@ -266,8 +267,9 @@ class SolveTContract(FunctionContract):
             g = interp.ctx.ghost
             it = k + 1                                   # value the loop variable takes in the iteration about to start
             p = g['passes']
-            cv = fr.locals.get('current_values')
-            st = fr.locals.get('status')
+            # the locals are found by role: the one that receives get_check_values(), the one stored into self.status[t]
+            cv = fr.locals.get(R.assigned_from_call(fr.fi.node, 'get_check_values', 'current_values'))
+            st = fr.locals.get(R.stored_into_self_series(fr.fi.node, 'status', 'status'))
             out = [('passes_is_iteration_minus_1', p == it - 1),
                    ('no_stop_so_far', self.no_stop_before(e, it)),
                    ('hooks_so_far', z3.And(g['before_calls'] == 1, g['after_calls'] == 0)),
